@@ -11,7 +11,6 @@ import (
 	"io"
 	"log/slog"
 	"net"
-	"os"
 	"strings"
 	"sync"
 	"time"
@@ -43,7 +42,6 @@ type Obs struct {
 	Kinds     []string `json:"kinds"` // hello kind of each reverse connection
 	Conns     []string `json:"conns"` // closed | open | returned
 	Bconn     []string `json:"bconn"` // none | closed | open | returned
-	Markers   []string `json:"markers"`
 	Cancelled bool     `json:"cancelled"`
 }
 
@@ -595,5 +593,3 @@ func Prime() error {
 	staleMu.Unlock()
 	return nil
 }
-
-var _ = os.Stdout
